@@ -361,7 +361,7 @@ func genConc(prop string, seed uint64, tier string) *ConcScenario {
 
 	family := "map"
 	switch prop {
-	case "C02", "C06":
+	case "C02", "C06", "C09":
 		family = "cache"
 	case "C14":
 		switch g.r.Intn(4) {
@@ -553,6 +553,9 @@ func genConc(prop string, seed uint64, tier string) *ConcScenario {
 				sc.Setup = append(sc.Setup, Op{K: CSet, Key: k, Val: g.val(), D: 1})
 			}
 		}
+	}
+	if prop == "C09" {
+		g.c09Defaults(sc)
 	}
 	sc.Strategy = g.strategy(steps + 50)
 	if (prop == "C02" || prop == "C03" || prop == "C04") && g.r.Bool(0.03) {
@@ -952,5 +955,45 @@ func (g *genCtx) c06MovingClock(sc *ConcScenario) {
 			}
 		}
 		ph.Tasks = append(ph.Tasks, prog)
+	}
+}
+
+// c09Defaults: storing tasks use the default TTL on keys of their own while
+// other tasks change the default (positive, zero, negative values in turn).
+func (g *genCtx) c09Defaults(sc *ConcScenario) {
+	sc.Phases = sc.Phases[:1]
+	ph := &sc.Phases[0]
+	ph.Tasks, ph.Delays, ph.Stall, ph.Optional = nil, nil, nil, nil
+	ph.Advance = 0
+	sc.Setup, sc.Prefill, sc.CBKind = nil, 0, 0
+	ds := []int64{-int64(time.Hour), -1, 0, 1, 3, 1000, int64(time.Second), int64(time.Hour), sentinelNoExp}
+	for i := 0; i < 1+g.r.Intn(2); i++ {
+		var prog []Op
+		for j := 0; j < 2+g.r.Intn(5); j++ {
+			prog = append(prog, Op{K: CSetDefaultExpiration, D: ds[g.r.Intn(len(ds))]})
+		}
+		ph.Tasks = append(ph.Tasks, prog)
+	}
+	key := 0
+	for i := 0; i < 1+g.r.Intn(3); i++ {
+		var prog []Op
+		for j := 0; j < 1+g.r.Intn(4); j++ {
+			switch g.r.Intn(3) {
+			case 0:
+				prog = append(prog, Op{K: CSetDefault, Key: key, Val: g.val()})
+			case 1:
+				prog = append(prog, Op{K: CSet, Key: key, Val: g.val(), D: sentinelDefault})
+			default:
+				prog = append(prog, Op{K: CGetAndSet, Key: key, Val: g.val(), D: sentinelDefault})
+			}
+			if g.r.Bool(0.6) {
+				key++
+			}
+		}
+		key++
+		ph.Tasks = append(ph.Tasks, prog)
+	}
+	if g.r.Bool(0.3) {
+		ph.Delays = append(ph.Delays, DelayCfg{Task: g.r.Intn(len(ph.Tasks)), AtStep: 1 + g.r.Intn(20)})
 	}
 }
